@@ -140,9 +140,16 @@ impl RelayMap {
 
     /// Extends this `RelayMap` with another one.
     pub fn extend(&self, other: &RelayMap) {
-        let mut a = self.relays.write().expect("poisoned");
-        let b = other.relays.read().expect("poisoned");
-        a.extend(b.iter().map(|(a, b)| (a.clone(), b.clone())));
+        // Snapshot `other` before taking our write lock: clones of a `RelayMap` share one
+        // map, so `other` may be guarded by the very same lock.
+        let entries: Vec<_> = other
+            .relays
+            .read()
+            .expect("poisoned")
+            .iter()
+            .map(|(a, b)| (a.clone(), b.clone()))
+            .collect();
+        self.relays.write().expect("poisoned").extend(entries);
     }
 
     /// Sets an authorization token for all relays configured in this relay map.
